@@ -4,6 +4,7 @@
 package director
 
 import (
+	"fmt"
 	"hash/fnv"
 	"math/rand"
 	"runtime"
@@ -46,6 +47,9 @@ type Director struct {
 	counts map[string]int64
 	gates  map[string][]*Gate
 	trace  []string
+	recent [256]string // ring of the latest events (hook arrivals and harness notes), for witnesses
+	rpos   int
+	t0     time.Time
 	rng    *rand.Rand
 	delay  map[string]int // point -> max yields (PRNG 0..n)
 	sleep  map[string]time.Duration
@@ -73,6 +77,7 @@ func (d *Director) Reset(seed int64) {
 	d.counts = map[string]int64{}
 	d.gates = map[string][]*Gate{}
 	d.trace = nil
+	d.recent, d.rpos, d.t0 = [256]string{}, 0, time.Now()
 	d.rng = rand.New(rand.NewSource(seed))
 	d.delay = map[string]int{}
 	d.sleep = map[string]time.Duration{}
@@ -86,6 +91,8 @@ func (d *Director) at(point string) {
 	if len(d.trace) < 4096 {
 		d.trace = append(d.trace, point)
 	}
+	d.recent[d.rpos%len(d.recent)] = fmt.Sprintf("%d %s", time.Since(d.t0).Microseconds(), point)
+	d.rpos++
 	var hit *Gate
 	gs := d.gates[point]
 	for i, g := range gs {
@@ -118,6 +125,27 @@ func (d *Director) at(point string) {
 	if sl > 0 {
 		time.Sleep(sl)
 	}
+}
+
+// Note records a harness-side event in the ring of recent events.
+func (d *Director) Note(ev string) {
+	d.mu.Lock()
+	d.recent[d.rpos%len(d.recent)] = fmt.Sprintf("%d %s", time.Since(d.t0).Microseconds(), ev)
+	d.rpos++
+	d.mu.Unlock()
+}
+
+// Recent returns the latest events, oldest first.
+func (d *Director) Recent() []string {
+	d.mu.Lock()
+	defer d.mu.Unlock()
+	var out []string
+	for i := 0; i < len(d.recent); i++ {
+		if e := d.recent[(d.rpos+i)%len(d.recent)]; e != "" {
+			out = append(out, e)
+		}
+	}
+	return out
 }
 
 // Park arms a gate for the nth next arrival at point (1 = the next one).
